@@ -186,12 +186,15 @@ Definition rx_fn_spec (fn : Z) (i o : tree) : bool :=
     (* C14: what the consumer got is a prefix of what the complete response delivers, and an error follows;
        C02: a complete stream delivers everything whatever the partition into reads *)
     let stream := t_bytes (t_nth 0 i) in
+    let k := t_int (t_nth 2 i) in
     let full := parse_stream (S (length stream)) stream in
     let '(es, _) := route_items rx_init full in
     let want := map ev_tree (filter is_queued es) in
+    (* what lies in completely received packets: the packets of the first k bytes *)
+    let '(esk, _) := route_items rx_init (parse_stream (S (length stream)) (ztake k stream)) in
+    let wantk := map ev_tree (filter is_queued esk) in
     let got := t_list (t_nth 0 o) in
-    is_prefix_tree got want && (t_int (t_nth 2 o) =? 1) &&
-    (if t_int (t_nth 2 i) =? zlen stream then (length got =? length want)%nat else true)
+    is_prefix_tree got want && is_prefix_tree wantk got && (length got =? length wantk)%nat && (t_int (t_nth 2 o) =? 1)
   | 12 => forallb (fun io => round_drained_ok (fst io) (snd io)) (combine (t_list (t_nth 2 i)) (t_list o))
   | 13 => writefail_spec i o
   | _ => pkg_spec fn i o
